@@ -2,7 +2,7 @@
 from vlib.core import Case
 
 ID = "C10"
-COMPONENTS = ["s_status", "statusfn"]
+COMPONENTS = ["s_status", "statusfn", "s_rawpeer"]
 T4 = ["MdWire"]
 PROOF_MODULES = ["GrpcProofs.Properties.C10"]
 THEOREMS = ["GrpcProofs.C10." + t for t in (
@@ -38,7 +38,7 @@ RULE = ("s_status: one real RPC per op; every response path (unary, unary-on-str
         "statusfn: encodeGrpcMessage/decodeGrpcMessage (all 1-byte strings, byte pairs around every UTF-8 class boundary, all strings <= 4 over a 10-symbol "
         "alphabet), encodeBinHeader/decodeBinHeader (all strings <= 5 over {A,Q,/,=,\\n,\\r,-,space}, mutated valid encodings), proto.Marshal/Unmarshal of "
         "google.rpc.Status and NewWithProto on crafted wire encodings (unknown fields of every wire type, wrong wire types, groups, over-long varints, truncations). "
-        "A case is non-trivial when at least one RPC ended with a non-nil error.")
+        "A case is non-trivial when at least one RPC ended with a non-nil error. s_rawpeer: the real client against a scripted raw HTTP/2 server: every listed grpc-status text (signs, leading zeros, blanks, non-digits, 2^31 boundaries, 20 digits), every listed grpc-message text, missing / repeated grpc-status and grpc-message, grpc-status-details-bin raw, padded, invalid, mismatching, doubled, with and without a preceding HEADERS frame.")
 
 MAXU32 = 2**32 - 1
 PATHS = ["u", "ub", "bx", "b0", "bh", "b1", "b2"]
@@ -222,6 +222,70 @@ def gen(rng, tier):
 
 
     yield from gen_fn(rng, tier)
+    yield from gen_peer(rng, tier)
+
+
+# ---- the real client against a scripted raw HTTP/2 server (component s_rawpeer) ------------------
+
+def fld(n, v):
+    return (hexs(n) if n else "~") + "=" + (hexs(v) if v else "~")
+
+
+def fields(fs):
+    return ";".join(fld(n, v) for n, v in fs) or "-"
+
+
+ST200 = (b":status", b"200")
+CTG = (b"content-type", b"application/grpc")
+STATUS_VALS = [b"%d" % c for c in range(0, 18)] + [b"+5", b"-1", b"-0", b"+0", b"007", b"7x", b"", b" 5", b"5 ", b"2147483647", b"2147483648",
+               b"-2147483648", b"-2147483649", b"4294967295", b"99999999999999999999", b"1_0", b"0x10", b"1e1", b"+", b"-", b"--1", b"5.0",
+               "５".encode(), b"\"5\"", b"5\\"]
+MSG_VALS = [b"", b"hi", b"hi%21", b"%", b"%4", b"%41", b"%zz", b"%E4%B8%AD", b"%e4%b8%ad", b"%FF", b"a b", b"%25", b"100%", b"%C3", b"a%20b%", b"\xe4\xb8\xad", b"\xff"]
+
+
+def gen_peer(rng, tier):
+    import base64
+    n = {"quick": 150, "thorough": 4000, "search": 1500}[tier]
+    ops = []
+    for sv in STATUS_VALS:
+        ops.append("srv %s 0 %s" % (fields([ST200, CTG]), fields([(b"grpc-status", sv), (b"grpc-message", b"m")])))
+        ops.append("srv - 0 %s" % fields([ST200, CTG, (b"grpc-status", sv)]))
+    for mv in MSG_VALS:
+        ops.append("srv %s 1 %s" % (fields([ST200, CTG]), fields([(b"grpc-status", b"3"), (b"grpc-message", mv)])))
+    ops.append("srv %s 0 %s" % (fields([ST200, CTG]), fields([(b"t", b"v")])))                      # no grpc-status at all
+    ops.append("srv %s 0 %s" % (fields([ST200, CTG]), fields([(b"grpc-status", b"0"), (b"grpc-status", b"3")])))
+    ops.append("srv %s 0 %s" % (fields([ST200, CTG]), fields([(b"grpc-status", b"3"), (b"grpc-status", b"0")])))
+    ops.append("srv %s 0 %s" % (fields([ST200, CTG]), fields([(b"grpc-message", b"a"), (b"grpc-message", b"b"), (b"grpc-status", b"9")])))
+    for _ in range(n):
+        code = rng.choice([0, 1, 3, 5, 13, 16, 17, 300])
+        st = marshal_status(code, rng.choice([b"", b"proto msg", "é".encode()]), rand_details(rng))
+        k = rng.randrange(8)
+        if k == 0:
+            dv = [base64.b64encode(st).rstrip(b"=")]
+        elif k == 1:
+            dv = [base64.b64encode(st)]                         # padded, as some peers send it
+        elif k == 2:
+            dv = [base64.b64encode(marshal_status(code + 1, b"other", []))]
+        elif k == 3:
+            dv = [rng.choice([b"A", b"====", b"AQI==", b"A Q", b"AQ=I", b"!!!!"])]
+        elif k == 4:
+            dv = [base64.b64encode(st), base64.b64encode(st)]
+        elif k == 5:
+            dv = [base64.b64encode(rand_bytes(rng, rng.randrange(0, 9)))]
+        else:
+            dv = []
+        trl = [(b"grpc-status", rng.choice(STATUS_VALS[:18] + [b"%d" % code] * 20)), (b"grpc-message", rng.choice(MSG_VALS))]
+        trl += [(b"grpc-status-details-bin", v) for v in dv]
+        if rng.random() < 0.3:
+            trl.append((b"t-bin", rng.choice([b"AQI", b"AQI=", b"AQ", b"AQ==", b"A", b""])))
+        rng.shuffle(trl)
+        if rng.random() < 0.6:
+            ops.append("srv %s %d %s" % (fields([ST200, CTG]), rng.randrange(2), fields(trl)))
+        else:
+            ops.append("srv - 0 %s" % fields([ST200, CTG] + trl))
+    per = 25
+    for i in range(0, len(ops), per):
+        yield Case("s_rawpeer", ops[i:i + per], "rawpeer-%d" % (i // per))
 
 
 # ---- T1: the codec functions on their own (component statusfn) ---------------------------------
@@ -363,4 +427,6 @@ def gen_fn(rng, tier):
 def nontrivial(case, impl_lines):
     if case.component == "statusfn":
         return True
+    if case.component == "s_rawpeer":
+        return any(not l.startswith("st=ok") for l in impl_lines)
     return any(l.startswith("err ") for l in impl_lines)
